@@ -106,7 +106,7 @@ void print_dualstack() {
             CScript::const_iterator it = env->script.begin();
             opcodetype opcode;
             valtype vchPushValue, p2sh_script_payload;
-            while (env->script.GetOp(it, opcode, vchPushValue)) { p2sh_script_payload = vchPushValue; }
+            while (env->script.GetOp(it, opcode, vchPushValue)) { p2sh_script_payload = (vchPushValue.empty() && (opcode == OP_1NEGATE || (opcode >= OP_1 && opcode <= OP_16))) ? valtype(1, opcode == OP_1NEGATE ? 0x81 : (unsigned char)(opcode - OP_1 + 1)) : vchPushValue; }
             p2sh_script = CScript(p2sh_script_payload.begin(), p2sh_script_payload.end());
         }
     }
